@@ -24,6 +24,7 @@ class Fs:
         self.clock = 1
         self.fail = set()    # paths whose operations fail
         self.symbolic_files = {}   # path -> z3 Bool: "a regular file exists here" (read-only probes)
+        self.symbolic_content = {}  # path -> bytes of such a file
 
     def tick(self):
         self.clock += 1
@@ -84,6 +85,9 @@ def fs_read(I, a, n):
     p = pkey(I, a[0])
     node = fs.nodes.get(p)
     fs.log.append(("read", p))
+    if node is None and p in fs.symbolic_files and I.branch_bool(fs.symbolic_files[p]):
+        data = list(fs.symbolic_content.get(p, []))
+        return OK(RString(data)) if meth(n) == "read_to_string" else OK(RVec(data, text=True))
     if node is None or node.is_dir or p in fs.fail:
         return ERR(io_err("No such file or directory"))
     if meth(n) == "read_to_string":
@@ -322,6 +326,16 @@ def anyhow_fmt(I, a, n):
     from .models_fmt import write_chars
     write_chars(I, a[1], deref(a[0]).display(I))
     return OK(UNIT)
+
+
+@model(r"^toml::from_str$|^toml::de::from_str$")
+def toml_from_str(I, a, n):
+    """stub: deserialisation is not encoded.  The harness registers env['toml_from_str'](I, text) -> value (typically a default
+    Config tagged with the file's content, so that WHICH file was loaded stays observable)"""
+    fn = I.env.get("toml_from_str")
+    if fn is None:
+        raise Unsupported("toml::from_str without a registered stub")
+    return fn(I, a[0])
 
 
 @model(r"^toml::to_string_pretty$|^toml::to_string$")
